@@ -195,6 +195,41 @@ pub fn check_emitted_generic(acc: &mut Acc, g: &ModuleGraph, fx: &FcCtx) {
           }
         }
       };
+      // specifiers the transform rewrote (not written like that in the
+      // source) must still be relative (or absolute) and resolve in the graph
+      {
+        let orig_specs: BTreeSet<&String> = top_o
+          .imports
+          .iter()
+          .map(|(s, _)| s)
+          .chain(top_o.named_reexports.iter().map(|(s, _, _)| s))
+          .chain(top_o.star_reexports.iter())
+          .collect();
+        let emitted_specs: Vec<&String> = top_e
+          .imports
+          .iter()
+          .map(|(s, _)| s)
+          .chain(top_e.named_reexports.iter().map(|(s, _, _)| s))
+          .chain(top_e.star_reexports.iter())
+          .collect();
+        for sp in emitted_specs {
+          acc.count("emitted_specifiers_examined");
+          if orig_specs.contains(sp) {
+            continue;
+          }
+          acc.count("rewritten_specifiers_examined");
+          let relative = sp.starts_with("./") || sp.starts_with("../");
+          let absolute = sp.contains("://") || sp.starts_with("jsr:") || sp.starts_with("npm:") || sp.starts_with("node:");
+          let resolves = url(&em.specifier).join(sp).ok().is_some_and(|t| g.get(&t).is_some()) && (relative || absolute);
+          if !resolves {
+            acc.violation(
+              if relative || absolute { "rewritten-specifier-does-not-resolve" } else { "rewritten-specifier-is-bare" },
+              format!("{}: the output has {:?}, which the source does not write and which is not a module of the graph", em.specifier, sp),
+              w(json!({"original_specifiers": orig_specs})),
+            );
+          }
+        }
+      }
       for (s, names) in &top_e.imports {
         check_target(acc, s, names.clone(), "imports");
       }
@@ -336,7 +371,21 @@ pub fn check_emitted_generic(acc: &mut Acc, g: &ModuleGraph, fx: &FcCtx) {
             continue;
           };
           acc.count("signature_slots_compared");
-          let ok = ev.same(ov) || (so.defaulted.contains(key) && ev.is_nullable_of(ov));
+          // documented normalisation of a defaulted parameter: optional
+          // (`x?: T`) when only optional / defaulted / rest parameters
+          // follow, `x: T | undefined` otherwise
+          let ok = if so.defaulted.contains(key) {
+            if se.defaulted.contains(key) {
+              // destructuring patterns keep a placeholder default
+              ev.same(ov)
+            } else if so.optional_tail.contains(key) {
+              ev.same(ov) && se.optional.contains(key)
+            } else {
+              ev.is_nullable_of(ov) && !se.optional.contains(key)
+            }
+          } else {
+            ev.same(ov) && (!so.params.contains(key) || so.optional.contains(key) == se.optional.contains(key))
+          };
           if !ok {
             let kind = key.rsplit('/').next().unwrap_or("").split(' ').next().unwrap_or("").split('#').next().unwrap_or("").to_string();
             acc.violation(
@@ -467,7 +516,7 @@ pub fn check_generated(acc: &mut Acc, pkgs: &[Pkg], g: &ModuleGraph, fx: &FcCtx)
   let ems = emitted_modules(g);
   let by_spec: BTreeMap<String, &EmittedModule> = ems.iter().map(|e| (e.specifier.clone(), e)).collect();
   for p in pkgs {
-    let public = public_set(p);
+    let (public, api_exported) = public_set_detail(p, true);
     let public_without_ns_default = public_set_opt(p, false);
     let any_dirty = p.files.iter().any(|f| f.decls.iter().any(|d| d.dirty.is_some()));
     let entry_files: BTreeSet<usize> = p.exports.iter().map(|(_, f)| *f).collect();
@@ -628,6 +677,35 @@ pub fn check_generated(acc: &mut Acc, pkgs: &[Pkg], g: &ModuleGraph, fx: &FcCtx)
             format!("{}: `{}` is neither exported nor referenced from the public API but is declared in the output", u, d.name),
             w(json!({})),
           );
+        }
+        if is_public && present && d.kind == DK::Namespace {
+          // members of a namespace: all exported ones when the namespace is
+          // an export of the API, only `Inner` when a signature names it
+          let whole = api_exported.contains(&(f, di));
+          let ns_text = {
+            let key = format!("namespace {} {{", d.name);
+            stripped.find(&strip_ws(&key)).map(|i| &stripped[i..]).unwrap_or("")
+          };
+          acc.count(if whole { "namespaces_checked/whole" } else { "namespaces_checked/qualified-member-only" });
+          let expect: &[(&str, bool)] = &[
+            ("exportinterfaceInner{", true),
+            ("exportconstk:", whole),
+            ("exportfunctionnf(", whole),
+            ("exportnamespaceDeep{", whole),
+          ];
+          // the namespace's text ends where the next top-level declaration starts; the members are unique to this shape, so searching the tail up to the next `namespace <Name> {` of another declaration is enough
+          let end = ns_text[1..].find("namespaceNs").map(|i| i + 1).unwrap_or(ns_text.len());
+          let ns_text = &ns_text[..end];
+          for (needle, wanted) in expect {
+            let has = ns_text.contains(needle);
+            if *wanted && !has {
+              acc.violation(
+                format!("public-namespace-member-absent/{}", if whole { "whole-namespace-exported" } else { "qualified-reference" }),
+                format!("{}: namespace `{}` lacks `{}` in the output", u, d.name, needle),
+                w(json!({})),
+              );
+            }
+          }
         }
         if is_public && present {
           for frag in signature_fragments(p, f, di) {
